@@ -62,6 +62,7 @@ type PathSummary struct {
 	Outcome   string            `json:"outcome"` // ok, violation, assume, bound, unsupported, internal, deadlock
 	Msg       string            `json:"msg,omitempty"`
 	Events    []string          `json:"events,omitempty"`
+	Reach     []string          `json:"reach,omitempty"`
 	Values    map[string]string `json:"values,omitempty"`
 	Choices   map[string]int    `json:"choices,omitempty"`
 	Instrs    int               `json:"instrs"`
@@ -100,6 +101,7 @@ type Explorer struct {
 	Stubs     map[string]bool
 	stopped   bool
 	passModels int
+	okSeen    int
 	start     time.Time
 }
 
